@@ -106,6 +106,9 @@ func NewOwnershipSpecification(owner, group string) (*OwnershipSpecification, er
 // Permission setting can be skipped by providing a mode value that yields 0
 // after permission bit masking.
 func SetPermissionsByPath(path string, ownership *OwnershipSpecification, mode Mode) error {
+	if err := verifFault("setpermissions", path); err != nil {
+		return err
+	}
 	// Set ownership information, if specified.
 	if ownership != nil && (ownership.ownerID != -1 || ownership.groupID != -1) {
 		if err := os.Chown(path, ownership.ownerID, ownership.groupID); err != nil {
